@@ -391,7 +391,7 @@ TetComplex(s) ==
   /\ \A c1, c2 \in LiveC(s) : c1 # c2 => CellVertSet(s, c1) # CellVertSet(s, c2)
 
 CollapseInContract(s, he) ==
-  /\ TetComplex(s) /\ CacheIsInverse(s)
+  /\ TetComplex(s)
   /\ he \in LiveHE(s)
   /\ LinkCondition(s, From(s, he), To(s, he))
 
